@@ -61,6 +61,13 @@ def unit_predict_proba():
         o = st.alloc(ObjData("__CFE__", {"class_prior_": st.alloc(prior), "classes_": st.alloc(classes), "__open__": True}))
         X = st.alloc(ArrData((n, z3.Int("d")), fresh_sel("X", "o", 2), "o"))
         ctx_h.update(n=n, K=K, prior=prior, args=[o, X])
+
+        def conc(ev):
+            from pyvc import cex
+            F = ctx_h["F"]
+            n_, K_ = cex.dim(ev, F, 0), cex.dim(ev, F, 1)
+            return {"family": "predict_proba", "sig": "counter-model", "n": n_, "K": K_, "F": [v for row in cex.arr(ev, F) for v in row], "prior": cex.arr(ev, prior)}
+        E.default_concretize = conc
         return ctx_h
 
     def post(E, ctx, outs):
@@ -111,6 +118,9 @@ def unit_check_class_prior(kind):
             ctx = {"cp": a, "m": m}
             arg = st.alloc(a)
         ctx.update(K=K, args=[arg, K])
+        from pyvc import cex
+        E.default_concretize = lambda ev: {"family": "class_prior", "sig": "counter-model", "scalar": kind == "scalar", "K": cex.ival(ev, K),
+                                           "cp": cex.rval(ev, ctx["cp"]) if kind == "scalar" else cex.arr(ev, ctx["cp"])}
         return ctx
 
     def lib():
